@@ -20,7 +20,10 @@ import (
 	"math/big"
 	"math/rand/v2"
 	"sort"
+	"strings"
+	"sync"
 	"testing"
+	"time"
 
 	"github.com/consensys/gnark/backend/groth16"
 	"github.com/consensys/gnark/constraint"
@@ -78,6 +81,20 @@ func kind(name string) string {
 // machine is shared and the multi-exponentiations inside fan out on their own.
 var slots = make(chan struct{}, 8)
 
+// busy accumulates the time spent inside gnark per kind of case (reporting only; never used to
+// select cases).
+var (
+	busyMu sync.Mutex
+	busy   = map[string]float64{}
+)
+
+func spent(section string, t0 time.Time) {
+	d := time.Since(t0).Seconds()
+	busyMu.Lock()
+	busy[section] += d
+	busyMu.Unlock()
+}
+
 // safe runs f converting a panic into a string.
 func safe(f func() error) (err error, pan string) {
 	slots <- struct{}{}
@@ -116,6 +133,7 @@ func (p *phase) prevOf(chain [][]byte, k int) []byte { // k is 1-based
 
 // build makes the two honest chains; every contributor starts from bytes.
 func (p *phase) build() bool {
+	defer spent(p.ph+"/honest-contributions", time.Now())
 	for _, dst := range []*[][]byte{&p.A, &p.B} {
 		cur := p.init
 		for i := 0; i < chainLen; i++ {
@@ -163,6 +181,26 @@ func (p *phase) replay(m map[string]any) map[string]any {
 }
 
 // reject records the outcome of one must-reject case.
+// sigOf builds the stable violation class: phase, attack family, and the vector / kind of case
+// (no indices, no replacement class: those go into the detail and the replay file).
+func sigOf(class, name string) string {
+	fam := class
+	for _, pre := range []string{"element-in-full-transcript/", "element/"} {
+		if strings.HasPrefix(class, pre) {
+			fam = strings.TrimSuffix(pre, "/")
+		}
+	}
+	if strings.HasPrefix(class, "chain/") {
+		return fam // the case name (which contributions were swapped …) is detail
+	}
+	if strings.HasPrefix(name, "k=") {
+		if i := strings.IndexByte(name, ' '); i > 0 {
+			name = name[i+1:]
+		}
+	}
+	return fam + "/" + kind(name)
+}
+
 func (p *phase) reject(class, name string, err error, pan string, rep func() map[string]any) {
 	p.r.Eval(p.label+"|"+p.ph+"|"+class+"|"+name, true)
 	switch {
@@ -170,10 +208,10 @@ func (p *phase) reject(class, name string, err error, pan string, rep func() map
 		p.r.Count(p.ph+".panic", 1)
 		m := rep()
 		m["panic"] = pan
-		p.r.Violation("panic/"+p.ph+"/"+class+"/"+kind(name), "verifier panicked on "+class+" "+name+": "+pan, p.replay(m))
+		p.r.Violation("panic/"+p.ph+"/"+sigOf(class, name), "verifier panicked on "+class+" "+name+": "+pan, p.replay(m))
 	case err == nil:
 		p.r.Count(p.ph+".ACCEPTED-must-reject", 1)
-		p.r.Violation("accepted/"+p.ph+"/"+class+"/"+kind(name),
+		p.r.Violation("accepted/"+p.ph+"/"+sigOf(class, name),
 			fmt.Sprintf("%s verification accepted a must-reject transcript: %s %s (%s)", p.ph, class, name, p.label), p.replay(rep()))
 	default:
 		p.r.Count(p.ph+".rejected."+class, 1)
@@ -184,6 +222,7 @@ func (p *phase) reject(class, name string, err error, pan string, rep func() map
 
 // positives: every prefix of both honest chains verifies (chains of 0..4 contributions).
 func (p *phase) positives() bool {
+	defer spent(p.ph+"/honest-verification", time.Now())
 	ok := true
 	for _, ch := range []struct {
 		n string
@@ -328,7 +367,9 @@ func (p *phase) elementEdits(k, perClass, nFull, workers int) {
 		e := chosen[i]
 		edited := api.Replace(base, e.slot, e.bytes)
 		var de, ve error
+		t0 := time.Now()
 		_, pan := safe(func() error { de, ve = st(edited); return nil })
+		spent(p.ph+"/element", t0)
 		if de != nil && pan == "" {
 			p.r.Inconclusive("edited-contribution-does-not-decode")
 			p.r.Count(p.ph+".element-edit.decode-error", 1)
@@ -351,7 +392,9 @@ func (p *phase) elementEdits(k, perClass, nFull, workers int) {
 		e := chosen[i]
 		chain := append([][]byte{}, p.A...)
 		chain[k-1] = api.Replace(base, e.slot, e.bytes)
+		t0 := time.Now()
 		err, pan := safe(func() error { return p.full(chain) })
+		spent(p.ph+"/element-in-full-transcript", t0)
 		p.reject("element-in-full-transcript/"+e.class, fmt.Sprintf("k=%d %s", k, e.slot.Name), err, pan, func() map[string]any {
 			return map[string]any{"k": k, "slot": e.slot.Name, "replacement": hx(e.bytes), "chain": hxs(chain), "initial": hx(p.init)}
 		})
@@ -542,7 +585,9 @@ func (p *phase) consistentEdits(k int) {
 
 func (p *phase) tryStep(st api.Step, class, name string, prev, edited []byte, k int) {
 	var de, ve error
+	t0 := time.Now()
 	_, pan := safe(func() error { de, ve = st(edited); return nil })
+	spent(p.ph+"/consistent", t0)
 	if de != nil && pan == "" {
 		p.r.Inconclusive("edited-contribution-does-not-decode")
 		return
@@ -569,7 +614,9 @@ func (p *phase) challengeEdits(k, nBits int, honestOut func(chain [][]byte) ([]b
 		}
 		edited := api.SetChallenge(base, l, nc)
 		var de, ve error
+		t0 := time.Now()
 		_, pan := safe(func() error { de, ve = st(edited); return nil })
+		spent(p.ph+"/challenge", t0)
 		if de != nil && pan == "" {
 			p.r.Count(p.ph+".challenge-edit.decode-error", 1)
 			p.r.Eval(p.label+"|"+p.ph+"|challenge-decode|"+name, true)
@@ -634,7 +681,9 @@ func mustLayout(p *phase, b []byte) *api.Layout {
 // chainCases: attacks on the order / provenance of whole contributions.
 func (p *phase) chainCases() {
 	try1 := func(class, name string, chain [][]byte) {
+		t0 := time.Now()
 		err, pan := safe(func() error { return p.full(chain) })
+		spent(p.ph+"/chain", t0)
 		p.reject("chain/"+class, name, err, pan, func() map[string]any {
 			return map[string]any{"case": name, "chain": hxs(chain), "initial": hx(p.init)}
 		})
@@ -829,7 +878,7 @@ func TestC18(t *testing.T) {
 	curves := tierCurves(r.Quick())
 	perClass := r.Pick(6, 0) // quick: PRNG subset per (vector, class); thorough: every element
 	nFull := r.Pick(4, 16)
-	nBits := r.Pick(24, 0)
+	nBits := r.Pick(24, 40)
 	workers := 6
 
 	// ---- plan: circuits per curve (deterministic from the seed)
@@ -854,14 +903,8 @@ func TestC18(t *testing.T) {
 			ns := []uint64{2, 4, 8, 16, 32, 64}
 			shapes = []shape{{ns[rng.IntN(3)], 0}, {ns[2+rng.IntN(4)], 1}, {ns[3+rng.IntN(3)], 2}, {64, rng.IntN(3)}}
 		} else {
-			for _, N := range []uint64{2, 4, 8, 16, 32, 64} {
-				for nc := 0; nc <= 2; nc++ {
-					if nc > 0 && N < 8 {
-						continue
-					}
-					shapes = append(shapes, shape{N, nc})
-				}
-			}
+			// every domain size 2..64, every commitment count at small and large domains
+			shapes = []shape{{2, 0}, {4, 0}, {8, 1}, {8, 2}, {16, 0}, {16, 1}, {32, 2}, {32, 0}, {64, 1}, {64, 2}}
 		}
 		for i, sh := range shapes {
 			c, err := findCircuit(rng, o.ID.ScalarField(), sh.nCom, sh.N)
@@ -929,6 +972,13 @@ func TestC18(t *testing.T) {
 	r.Require("keys.circuits.commitments=1", 1)
 	r.Require("keys.circuits.commitments=2", 1)
 	r.Require("keys.cross-key-rejected", 4)
+	busyMu.Lock()
+	bs := map[string]float64{}
+	for k, v := range busy {
+		bs[k] = float64(int(v*10)) / 10
+	}
+	busyMu.Unlock()
+	r.Set("seconds_inside_gnark_by_case_kind(reporting-only)", bs)
 	level := "exploration"
 	if !r.Quick() {
 		level = "fault_enumeration"
